@@ -130,7 +130,7 @@ def run(chk):
                 gens.append(g)
                 exhaustive_count += 1
     # random: big totals, many clauses, fine denominators, invalid sums
-    nrand = 3000 if chk.tier == "quick" else 40000
+    nrand = chk.size(3000, 40000)
     for _ in range(nrand):
         k = rng.randrange(1, 7)
         den = rng.choice([3, 7, 9, 100, 1000, 10000, 64, 97])
